@@ -4,6 +4,7 @@ import random
 
 from vf.core import Res
 from vf import worldlib as wl
+from vf import reentry
 
 ID = 'C02'
 LEVEL = 'exploration'
@@ -88,6 +89,14 @@ def gen_cases(tier, seed):
         yield case
     n = 4000 if tier == 'quick' else 16 * 5000
     for i in range(n):
+        if i % 8 == 0:
+            # an on_remove callback touches the world again (vf/reentry.py)
+            yield reentry.gen(random.Random(f'C02/re/{seed}/{tier}/{i}'))
+        if i % 40 == 3:
+            # a released on_add detaches a component whose own postponed
+            # on_add is still queued
+            yield reentry.gen_overtake(
+                random.Random(f'C02/ot/{seed}/{tier}/{i}'))
         yield gen_one(random.Random(f'C02/{seed}/{tier}/{i}'), tier, i)
 
 
@@ -359,6 +368,10 @@ def _key(e):
 
 
 def run_case(case):
+    if case.get('scenario') == 'reentry':
+        return reentry.run(case)
+    if case.get('scenario') == 'overtake':
+        return reentry.run_overtake(case)
     if case.get('scenario'):
         return run_scenario(case)
     res = Res()
@@ -372,4 +385,8 @@ def run_case(case):
 
 
 def classify(case, div):
+    if case.get('scenario') == 'overtake' and case['victim_after_actor'] \
+            and div['kind'] in ('overtake-callbacks-out-of-turn',
+                                'overtake-registration'):
+        return 'release-overtaken-by-immediate-callback'
     return None
